@@ -105,7 +105,7 @@ func (i SmallInt) IsEven() bool {
 }
 
 func (i SmallInt) IsOdd() bool {
-	return i%2 == 1
+	return i%2 != 0
 }
 
 // Convert to Elk Float.
